@@ -71,6 +71,10 @@ func Run(c *vh.Ctx) {
 			} else {
 				runTypes(c, m, t.Tag, &t)
 			}
+		case "scope":
+			var sc ScopeCase
+			json.Unmarshal(c.ReplayRaw, &sc)
+			runScope(c, sc.Tag, sc.Name)
 		case "hist":
 			var h HistCase
 			json.Unmarshal(c.ReplayRaw, &h)
@@ -99,6 +103,8 @@ func Run(c *vh.Ctx) {
 	// what the exact parameter boundaries must keep accepting: `T $x = null`, omitted arguments, untyped, mixed
 	runParamCompat(c, m, tyTag+"c", nil)
 	runInst(c, m, "N"+string(rune('a'+c.Rand.Intn(26))), nil)
+	// legitimate accesses through the other routes into a method (inherited constructor, trait, callable array …)
+	runScope(c, "Sc"+string(rune('a'+c.Rand.Intn(26))), "")
 	// enforcement is history-independent: every enforcement point probed repeatedly within one VM
 	for _, sh := range shs {
 		histAccess(c, m, sh, "")
